@@ -13,7 +13,7 @@ import numpy as np
 
 from .. import argguard, core, mapsys, parsers
 
-PROPS = ["C11_DiskLayout", "C11_SpellingIrrelevant", "C11_ArgumentsKept", "C11_RoundTrip", "C11_ReadLayout", "C11_ConvertPreserves", "C11_ConvertNegates",
+PROPS = ["C11_DiskLayout", "C11_SpellingIrrelevant", "C11_ArgumentsKept", "C11_ResultsPersist", "C11_RoundTrip", "C11_ReadLayout", "C11_ConvertPreserves", "C11_ConvertNegates",
          "C11_NoClobber", "C11_DefaultNames"]
 INVS = ["TypeOK", "C11_NegInvolution"]
 NP = {"f64": np.float64, "f32": np.float32, "i16": np.int16, "i8": np.int8}
@@ -328,8 +328,9 @@ def recheck_held(ctx, held, now, case):
     returned, whatever was called afterwards (no result aliases library state or a later result)."""
     for step_no, op, obj, snap in held:
         if obj.shape != snap.shape or not np.array_equal(obj, snap):
-            ctx.fail("C11_RoundTrip", "the array returned by call %d (%s %s) changed after later calls (inspected after call %d)" % (
-                step_no, op["name"], op.get("file"), now), case, dict(op_sig(op), reinspected=True))
+            ctx.fail("C11_ResultsPersist", "the array returned by call %d (%s %s) changed after later calls%s (inspected after call %d)" % (
+                step_no, op["name"], op.get("file"), " - its file was rewritten by: %s" % op["source_rewritten"] if op.get("source_rewritten") else "",
+                now), case, dict(op_sig(op), reinspected=True))
             return False
     return True
 
@@ -425,7 +426,26 @@ def run_transition(ctx, tr, variant, vseed):
             vals = [int(v) for v in vals]
         (parsers.write_em if src["fmt"] == "em" else parsers.write_mrc)(other, tuple(src["dims"]), PARSER_NAME[src["mode"]], vals)
         core.call_guarded(cryomap.read, other, transpose=tr["op"].get("tr", True))
-        recheck_held(ctx, [(1, tr["op"], ret, snap)], 2, case)
+        if recheck_held(ctx, [(1, tr["op"], ret, snap)], 2, case):
+            # "rewrite source": the file the result came from is overwritten with other voxels (by the library, or in
+            # place by another program), converted onto, or deleted; the array handed out earlier must not follow it
+            srcpath = os.path.join(d, tr["op"]["file"])
+            how = variant % 4
+            arr2 = np.array(vals).reshape(tuple(src["dims"])[::-1]).transpose(2, 1, 0).astype(NP[src["mode"]])
+            if how == 0:
+                core.call_guarded(cryomap.write, arr2, srcpath)
+            elif how == 1:
+                (parsers.write_em if src["fmt"] == "em" else parsers.write_mrc)(srcpath, tuple(src["dims"]), PARSER_NAME[src["mode"]], vals)
+            elif how == 2 and not tr["op"]["file"].endswith(".rec"):
+                # a conversion writes onto it
+                ext = tr["op"]["file"].rsplit(".", 1)[-1]
+                conv = os.path.join(d, "zz_conv." + ("mrc" if ext == "em" else "em"))
+                (parsers.write_mrc if ext == "em" else parsers.write_em)(conv, tuple(src["dims"]), PARSER_NAME[src["mode"]], vals)
+                core.call_guarded(cryomap.mrc2em if ext == "em" else cryomap.em2mrc, conv, output_name=srcpath)
+            else:
+                os.remove(srcpath)
+            if tr["op"]["name"] == "read":
+                recheck_held(ctx, [(1, dict(tr["op"], source_rewritten=["write", "other program", "convert", "remove"][how]), ret, snap)], 3, case)
     ctx.ran(case)
     shutil.rmtree(d, ignore_errors=True)
 
